@@ -3,19 +3,16 @@
    exactly; vertices created after a pass through a Python set up to the renumbering sigma that the harness
    proposes and Coq checks; edge lists that passed through a set as sets).  No proofs. *)
 From Coq Require Import ZArith List Bool QArith Qcanon Sorting.Mergesort Orders.
-Require Import MV.Lib.Base MV.C13.Defs MV.C13.Gen MV.C13.Model.
+Require Import MV.Lib.Base MV.C13.Defs MV.C13.Geom MV.C13.Gen MV.C13.Model.
 Import ListNotations.
 Open Scope Z_scope.
 
 (* ------------------------------------------------------------------ points over Qc *)
-Definition pt := (Qc * Qc * Qc)%type.
+Definition pt := vec Qc.
 Definition qz (n : Z) : Qc := Q2Qc (inject_Z n).
 Definition mkq (n : Z) (d : positive) : Qc := Q2Qc (n # d).
-Definition pt_add (a b : pt) : pt :=
-  let '(x, y, z) := a in let '(x', y', z') := b in ((x + x')%Qc, (y + y')%Qc, (z + z')%Qc).
-Definition pt_divz (a : pt) (n : Z) : pt :=
-  let '(x, y, z) := a in ((x / qz n)%Qc, (y / qz n)%Qc, (z / qz n)%Qc).
-Definition QcO : pops pt := {| padd := pt_add; pdivz := pt_divz; pzero := (qz 0, qz 0, qz 0) |}.
+(* the generic field instance of Geom.v at Qc: division by n is division by 1+1+...+1 *)
+Definition QcO : pops pt := fieldO Qc (Q2Qc 0) (Q2Qc 1) Qcplus Qcopp Qcdiv.
 Definition qc_eqb (a b : Qc) : bool := Qeq_bool (this a) (this b).
 Definition pt_eqb (a b : pt) : bool :=
   let '(x, y, z) := a in let '(x', y', z') := b in qc_eqb x x' && qc_eqb y y' && qc_eqb z z'.
